@@ -15,6 +15,14 @@ def parseCrit (j : Json) : R Crit :=
 /-- K-run: whole runs through `sync_launch::launch` against the launch-layer model -/
 def replay (j : Json) : R Verdict := do
   let case ← asNat (fieldD j "case")
+  if (fieldD j "wide").getBool?.toOption == some true then
+    -- 300 evaluations in flight, a time limit of 200 ms: the run returns its best result once they have ended
+    let r := fieldD j "ret"
+    let ok := match (fieldD r "ok").getArr?.toOption with | some a => a.size == 2 && a[0]!.compress == "1" | none => false
+    if ok then return { case, kind := "ok", tags := ["run:wide-300"], size := 300 }
+    let w := if r.compress == "\"hang\"" then "C04: a run with 300 evaluations in flight was ended by its time limit (200 ms) and never returned, although every evaluation ended on the abort request"
+             else s!"C04: a run with 300 evaluations in flight, one accepted result and a time limit of 200 ms returned {r.compress}"
+    return { case, kind := "PROPFAIL", props := ["C04", "C15"], what := w, tags := ["run:wide-300"], size := 300, fails := [w, "C15: " ++ (w.drop 5).toString] }
   let crits ← (← asArr (← field j "criteria")).toList.mapM parseCrit
   let nc ← asNat (← field j "nc")
   let threaded ← asBool (← field j "threaded")
@@ -53,6 +61,11 @@ def replay (j : Json) : R Verdict := do
     | some b => if b > one || calls != 11 then
         pf := pf ++ [s!"C04: target 1.0, first result one ulp above it, eleventh result exactly 1.0: the run made {calls} evaluations and returned a best-seen objective with order code {b} ({if b > one then "ABOVE the target" else "the target"})"]
     | none => pf := pf ++ [s!"C04: target 1.0 reachable at the eleventh evaluation, the run returned {ret.compress}"]
+  -- C04: a time limit of 100 ms against a budget of 40 000 never-suspending evaluations
+  if (fieldD j "immLimit").getBool?.toOption == some true then
+    tags := "run:immediate-with-time-limit" :: tags
+    if calls ≥ 40000 then
+      pf := pf ++ [s!"C04: time limit 100 ms, yet the run used up its whole budget of 40000 evaluations (about two seconds of work): the limit was not taken while finished evaluations kept coming"]
   match (fieldD j "stdoutNoise").getNat?.toOption with
   | some k => if k > 0 then pf := pf ++ [s!"C16: the library wrote {k} byte(s) to the process's standard output during a run: a successful CLI run would print more than its one line"]
   | none => pure ()
@@ -97,7 +110,7 @@ def replay (j : Json) : R Verdict := do
       if csvRows != a + rj then pf := pf ++ [s!"C14: the report counts {a} completed + {rj} rejected, the detailed report has {csvRows} records"]
       let accRows := (rowObjs.filter (fun x => !x.isNull)).length
       if accRows != a then pf := pf ++ [s!"C14: {a} completed evaluations reported, {accRows} records with a value"]
-      if !reachable && failAt.all (fun k => k ≥ n) then
+      if !reachable && failAt.all (fun k => k ≥ n) && (fieldD j "immLimit").getBool?.toOption != some true then
         if calls != n || a + rj != n then
           pf := pf ++ [s!"C03: budget {n}, nothing else ended the run, but {calls} evaluations were started and the report counts {a} + {rj}"]
       -- C02 (sample size 1): the reported objective is the minimum over the records with a value
